@@ -81,6 +81,11 @@ def kahn_step(I, fr, lname, names, entry, fresh, head, outs):
         _ob(I, fr, what0 + ": the frontier receives the current depth", "order' ≡ order[frontier := depth]",
             terms_equal(s, post["order"].t, ("sac", O, F, d)), s)
         D1 = normalise(s, post["indegree"].f["table"].t)
+        if D1 == Dt and terms_equal(s, post["frontier"].t, EMPTY):
+            # nothing is reachable from the frontier: the decrement is by no pairs and the search ends here
+            _ob(I, fr, what0 + ": the persistent in-degree is decremented by the (key, count) pairs of one sparse count",
+                "no successors: indegree' ≡ indegree and frontier' ≡ []", True, s)
+            continue
         ok = D1[0] == "ssa" and D1[1] == Dt and D1[2][0] == "spkeys" and D1[3][0] == "spcounts" and D1[2][1] == D1[3][1]
         _ob(I, fr, what0 + ": the persistent in-degree is decremented by the (key, count) pairs of one sparse count",
             "indegree' ≡ indegree[keys −= counts], (keys, counts) = sparse_bincount(X): got " + show_term(D1)[:200], ok, s)
@@ -96,9 +101,12 @@ def kahn_step(I, fr, lname, names, entry, fresh, head, outs):
         # the top of the round) or, in discipline B, those before the next frontier is marked
         flags_t = U if "unvisited" in mark_next else post["unvisited"].t
         F1 = ("repeat", mk_gather(s, flags_t, cand), cand)
+        # the two selections commute: unvisited first, then remaining in-degree zero
+        cand2 = ("repeat", mk_gather(s, flags_t, K), K)
+        F1b = mk_gather(s, cand2, ("zero", mk_gather(s, D1, cand2)))
         _ob(I, fr, what0 + ": next frontier = reached nodes whose remaining in-degree is zero and which are unvisited",
             "frontier' ≡ filter(keys[indegree'[keys] == 0], unvisited'): got " + show_term(normalise(s, post["frontier"].t))[:200],
-            terms_equal(s, post["frontier"].t, F1), s)
+            terms_equal(s, post["frontier"].t, F1) or terms_equal(s, post["frontier"].t, F1b), s)
 
 
 def _mentions_inj_of(t, F):
@@ -147,6 +155,23 @@ def convex_step(I, fr, lname, names, entry, fresh, head, outs):
                     if isinstance(a_, tuple) and a_ and a_[0] == "nuniq" and _mentions(a_[1], F1):
                         atoms.add(a_)
             ok = bool(atoms) and all(s.eq(Poly.atom(a_), 0) for a_ in atoms)
+            if not atoms:
+                # the successors were found empty before any distinct-value count was taken (e.g. "no edge leaves the
+                # frontier"): some re-indexing along the frontier is known to be empty on this path
+                terms = set()
+
+                def visit(t):
+                    if isinstance(t, tuple):
+                        if t and t[0] in ("gather", "inj") and t != F1 and _mentions(t, F1):
+                            terms.add(t)
+                        for y in t:
+                            visit(y)
+                    elif isinstance(t, Poly):
+                        for a_ in t.atoms():
+                            visit(a_)
+                for k_, p_ in s.lin.facts:
+                    visit(p_)
+                ok = any(s.eq(t_len(t_), 0) or s.eq(t_sum(t_), 0) for t_ in terms)
         _ob(I, fr, "convexity search: the frontier of paths that left the image is emptied only when it has no successors",
             "frontier1' = [] ⇒ frontier1 = [] or successors(frontier1) = []", ok, s)
 
